@@ -1,12 +1,24 @@
 import Tahoe.Http.LemmasMarshal
 import Tahoe.Http.LemmasServer
+import Tahoe.Http.LemmasDirect
 /-! C31 — HTTP and direct storage access agree (property theorems; helper lemmas are in
-`Tahoe/Http/LemmasMarshal.lean`).
+`Tahoe/Http/LemmasMarshal.lean`, `LemmasServer.lean`, `LemmasDirect.lean`).
 
-The direct semantics is the reference: `readShareData` (`ShareFile.read_share_data` /
-`MutableShareFile._read_share_data`), a single `BucketWriter.write` of the whole share, and the argument tuple
-of `slot_testv_and_readv_and_writev`.  The HTTP path is the composition client (`http_client.py`) ∘ wire ∘
-server (`http_server.py`) of `Tahoe/Http/Marshal.lean`.
+Two executable models over one abstract state: `directStep` (`Http/Direct.lean`: the `StorageServer` calls a
+local / Foolscap caller makes) and the HTTP path = client (`Http/Client.lean`) ∘ gate ∘ handler
+(`Http/Server.lean`).  `handledStep` is the HTTP path behind the authorization gate.
+
+## Coverage of the statement (properties.jsonl C31)
+
+| clause | theorem(s) |
+|---|---|
+| "for any sequence of storage operations, issuing them through the HTTP client against the HTTP server gives the same results and leaves the same server state as calling the storage server directly" | `http_handlers_eq_direct_partial` (every operation, every state: result and state equal) and `http_history_eq_direct_partial` (every history, by induction, under the invariant that clients use their own upload secrets).  *Partial*: the authorization gate is assumed passed for the client-built request (base64 / URL rendering round trip of `opRequest` is not proved in Lean — C30 `served_iff_authorized` says when it passes; correspondence: driver `hist` = `hhist` = real HTTP path on every generated history) |
+| range reads, including past the end | `http_read_eq_direct` (all offsets / lengths incl. 0, both non-raising variants), `http_read_eq_direct_generated`, `read_range_decision`, `read_range_rejects`, missing shares: `http_read_opt_eq_direct_probe`; `zero_length_read_probes` pins the repaired client variant |
+| chunked immutable uploads with completion detection | `chunked_upload_eq_single` (any chunking / order / overlap of consistent non-empty chunks), `write_handler_is_upStep`, `chunk_answer` |
+| read-test-write results | `rtw_marshal_roundtrip`, `rtw_wire_keys_agree`, `rtw_schema_bound_witness`; the operation itself inside `http_handlers_eq_direct_partial` (`.rtw` case: same `ssRtw` call, same result after the CBOR round trip); `mutable_write_read_back` |
+| share listing | `http_handlers_eq_direct_partial` (`.list`, `.mlist`) |
+| lease addition | `http_handlers_eq_direct_partial` (`.lease`); lease side effect of allocation on existing shares: `http_allocate_eq_direct_leases`, `allocate_renews_existing_leases`, `allocate_without_renewal_differs` |
+| the tie of both models to the code | correspondence only: three-way replay (real direct calls vs `directStep`, real HTTP path vs `clientStep` and `handledStep`, share files byte for byte) |
 -/
 namespace Tahoe.C31
 open Tahoe.Http
@@ -189,30 +201,8 @@ theorem chunked_upload_eq_single (target : Bytes) (chunks : List (Nat × Bytes))
 with the chunks the client sends (`clientContentRange` is the header `write_share_chunk` builds). -/
 theorem write_handler_is_upStep (st : State) (sec : SecretsDict) (si : String) (n : Nat) (u : Upload) (off : Nat) (data : Bytes)
     (hu : lookupK (si, n) st.up = some u) (hs : u.secret = getS sec .upload) (hne : data ≠ []) :
-    hWrite st sec si n (clientContentRange off data) data = writeOutcome st si n u (upStep (.opened u.cells) (off, data)) := by
-  have hlen : data.length ≠ 0 := by
-    intro h; exact hne (List.length_eq_zero_iff.mp h)
-  have hg : getWriteBucket Upload.secret st.up si n (getS sec .upload) = .found u := by
-    unfold lookupK at hu
-    unfold getWriteBucket
-    cases hf : st.up.find? (fun e => e.1 = (si, n)) with
-    | none => simp [hf] at hu
-    | some e =>
-      simp [hf] at hu
-      simp [hu, hs]
-  unfold hWrite clientContentRange
-  simp only [hlen, if_false, ne_eq, not_true_eq_false, hg]
-  have hw : off + data.length - off = data.length := by omega
-  simp only [hw, List.take_length, hlen, if_false, hne]
-  unfold upStep
-  cases hb : bucketWrite u.cells off data with
-  | conflict => simp [hb, writeOutcome]
-  | tooLarge => simp [hb, writeOutcome]
-  | ok c =>
-    simp only [Nat.lt_irrefl, if_false]
-    by_cases hf : finished c = true
-    · simp [hb, hf, writeOutcome]
-    · simp [hb, hf, writeOutcome]
+    hWrite st sec si n (clientContentRange off data) data = writeOutcome st si n u (upStep (.opened u.cells) (off, data)) :=
+  write_handler_is_upStep_aux st sec si n u off data hu hs hne
 
 /-- the answers spelled out: 404 once the share was complete, 201 exactly at full coverage, else 200 with the
 still required ranges -/
@@ -268,5 +258,100 @@ theorem mutable_write_read_back (d : Bytes) (offset : Nat) (w : Bytes) :
   rw [List.append_assoc, List.append_assoc, ← List.append_assoc (List.take offset d)]
   rw [List.drop_append_of_le_length (by omega), List.drop_of_length_le (by omega)]
   simp
+
+/-! ### the two paths, operation by operation and history by history -/
+
+/-- the client variant in force asks for one byte on a zero-length read (repair 187862a) -/
+theorem zero_length_read_probes : zeroRead = .probe := by decide
+
+/-
+Full statement (`http_path_eq_direct`): `clientStep sw st op = directStep st op` for every swissnum, state and
+operation.  Proved below *behind the gate*: `handledStep` feeds the handler the route, secrets and payload the
+client puts on the wire.  Missing for the full statement: `gate sw (opRequest sw op)` passes with exactly those
+secrets — the base64 round trip of `secretHeader`, UTF-8 validity of the client's headers and
+`matchRoute (toString n …)`; established by correspondence only (driver `hist` vs `hhist`).
+-/
+
+/-- **HTTP path = direct path, per operation**: for every state and every operation a well-behaved client issues
+(`OpOk`: own upload secret; read-test-write within the schema bounds) the handler behind the gate returns the
+direct call's result and leaves the direct call's state. -/
+theorem http_handlers_eq_direct_partial (st : State) (op : Op) (h : OpOk st op) :
+    handledStep st op = directStep st op := by
+  cases op with
+  | create si ns size u r c => exact handled_create st si ns size u r c
+  | write si n u off d => exact handled_write st si n u off d h
+  | abort si n u => exact handled_abort st si n u h
+  | read si n off len => exact handled_read zero_length_read_probes st si n off len
+  | mread si n off len => exact handled_mread zero_length_read_probes st si n off len
+  | list si => exact handled_list st si
+  | mlist si => exact handled_mlist st si
+  | lease si r c => exact handled_lease st si r c
+  | rtw si we r c a => exact handled_rtw st si we r c a h
+
+/-- **HTTP path = direct path, per history** (any length, by induction): same results, same final state. -/
+theorem http_history_eq_direct_partial (st : State) (ops : List Op) (h : HistoryOk st ops) :
+    handledRun st ops = directRun st ops := by
+  induction ops generalizing st with
+  | nil => rfl
+  | cons op rest ih =>
+    obtain ⟨h1, h2⟩ := h
+    simp only [handledRun, directRun, http_handlers_eq_direct_partial st op h1]
+    rw [ih _ h2]
+
+-- allocate two shares, upload one in two out-of-order chunks, read past its end, add a lease: both paths agree
+example :
+    let si := "aaaaaaaaaaaaaaaaaaaaaaaaaa"
+    let ops : List Op := [.create si [0, 1] 3 [5] [1] [2], .write si 0 [5] 1 [8, 9], .write si 0 [5] 0 [7], .read si 0 1 10,
+                          .read si 0 2 0, .read si 1 0 0, .lease si [3] [4], .list si, .abort si 1 [5]]
+    handledRun {} ops = directRun {} ops ∧
+    (directRun {} ops).2 = [.created [] [0, 1], .progress false [(0, 1)], .progress true [], .data [8, 9], .data [],
+                             .httpError 404, .done, .shares [0], .done] := by decide
+
+-- outside `OpOk`: a write with somebody else's upload secret is refused over HTTP (401); the direct path has no secrets
+example : (handledStep { up := [(("aaaaaaaaaaaaaaaaaaaaaaaaaa", 0), ⟨[9], [none], ([], [])⟩)] }
+            (.write "aaaaaaaaaaaaaaaaaaaaaaaaaa" 0 [5] 0 [1])).2 = .httpError 401 := by decide
+
+/-- **Allocation and leases.**  `POST /immutable/<si>` and a direct `allocate_buckets` leave the same leases on the
+shares the server already holds (and the same uploads, the same answer). -/
+theorem http_allocate_eq_direct_leases (st : State) (si : String) (ns : List Nat) (size : Nat) (u r c : Bytes) :
+    (handledStep st (.create si ns size u r c)).1.imm = (directStep st (.create si ns size u r c)).1.imm ∧
+    handledStep st (.create si ns size u r c) = directStep st (.create si ns size u r c) := by
+  have := handled_create st si ns size u r c
+  exact ⟨by rw [this], this⟩
+
+/-- what that lease state is: after an allocation every share of the storage index that was already complete
+carries a lease with the caller's renew secret -/
+theorem allocate_renews_existing_leases (st : State) (si : String) (ns : List Nat) (size : Nat) (u r c : Bytes)
+    (e : Key × ImmShare) (he : e ∈ (directStep st (.create si ns size u r c)).1.imm) (hsi : e.1.1 = si) :
+    ∃ l ∈ e.2.leases, l.1 = r := by
+  simp only [directStep, ssAllocate, if_true] at he
+  rw [List.mem_map] at he
+  obtain ⟨e0, _, rfl⟩ := he
+  by_cases h0 : e0.1.1 = si
+  · simp only [h0, if_true]
+    unfold addOrRenew
+    split
+    · rename_i hany
+      rw [List.any_eq_true] at hany
+      obtain ⟨x, hx, hx2⟩ := hany
+      exact ⟨x, hx, by simpa using hx2⟩
+    · exact ⟨(r, c), by simp, rfl⟩
+  · simp only [h0, if_false] at hsi
+
+/-- the seeded variant `allocate_buckets(..., renew_leases=False)` is a different function: an existing share
+keeps only its old lease -/
+theorem allocate_without_renewal_differs :
+    let st : State := { imm := [(("aaaaaaaaaaaaaaaaaaaaaaaaaa", 0), ⟨[1], [([1], [2])]⟩)] }
+    (ssAllocate true st "aaaaaaaaaaaaaaaaaaaaaaaaaa" [1] 1 [5] ([3], [4])).1.imm
+      = [(("aaaaaaaaaaaaaaaaaaaaaaaaaa", 0), ⟨[1], [([1], [2]), ([3], [4])]⟩)] ∧
+    (ssAllocate false st "aaaaaaaaaaaaaaaaaaaaaaaaaa" [1] 1 [5] ([3], [4])).1.imm
+      = [(("aaaaaaaaaaaaaaaaaaaaaaaaaa", 0), ⟨[1], [([1], [2])]⟩)] := by decide
+
+-- the seeds of round a/b in the model: a test vector whose size differs from its specimen's length is evaluated with
+-- its size; an empty write beyond the end survives the wire and extends the share
+example : testsPass [(0, [1, 2, 3])] [(0, ⟨[⟨0, 1, []⟩], [], none⟩)] = false ∧
+    testsPass [] [(0, ⟨[⟨0, 1, []⟩], [], none⟩)] = true := by decide
+example : decRtw (encRtw ⟨[(0, ⟨[], [(5, [])], none⟩)], []⟩) = some ⟨[(0, ⟨[], [(5, [])], none⟩)], []⟩ ∧
+    mutWritev [1, 2] [(5, [])] none = [1, 2, 0, 0, 0] := by decide
 
 end Tahoe.C31
